@@ -536,7 +536,7 @@ theorem childSubOKD_any {d a ts fr j cur} (h : AtD d a ts fr j cur) (kp : Nat â†
   | gsub81 _ _ _ _ => exact childSubOKD_insert h kp gd acts _ (by rfl) hok
   | gpos11 _ _ => exact childSubOKD_insert h kp gd acts _ (by rfl) hok
   | gpos12 _ _ => exact childSubOKD_insert h kp gd acts _ (by rfl) hok
-  | gpos41 _ _ _ _ => exact childSubOKD_insert h kp gd acts _ (by rfl) hok
+  | gpos41 _ _ _ _ _ => exact childSubOKD_insert h kp gd acts _ (by rfl) hok
   | gpos61 _ _ _ _ => exact childSubOKD_insert h kp gd acts _ (by rfl) hok
   | ctx1 _ _ => exact childSubOKD_ctx h kp gd acts _ (by rfl)
   | ctx2 _ _ _ => exact childSubOKD_ctx h kp gd acts _ (by rfl)
